@@ -69,9 +69,117 @@ func (ff *FuncFacts) ProveGE(b *ssa.BasicBlock, x, y *Affine, k int64, extra ...
 	fs := append(append(FactSet{}, ff.At(b)...), extra...)
 	g := x.Sub(y)
 	g.C -= k
+	return ff.proveCore(fs, b, g)
+}
+
+// proveCore proves g >= 0 from fs (and, when b is given, from facts that hold at b).
+func (ff *FuncFacts) proveCore(fs FactSet, b *ssa.BasicBlock, g *Affine) bool {
+	return ff.proveSplit(fs, b, g, 3)
+}
+
+func (ff *FuncFacts) proveSplit(fs FactSet, b *ssa.BasicBlock, g *Affine, depth int) bool {
+	if depth <= 0 {
+		return false
+	}
 	known := append(ff.T.ineqs(fs), ff.PhiIneqs()...)
-	known = append(known, ff.usubIneqs(b)...)
-	return proveGE0(g, known, 4)
+	if b != nil {
+		known = append(known, ff.usubIneqs(b)...)
+	}
+	if proveGE0(g, known, 4) {
+		return true
+	}
+	// min(a,b,…) in the goal: m equals one of its arguments and is ≤ each of them.
+	for term, co := range g.Co {
+		if len(term) < 5 || term[:4] != "min(" {
+			continue
+		}
+		call := ff.builtinByTerm(term)
+		if call == nil {
+			continue
+		}
+		okAll, okAny := true, false
+		for _, a := range call.Call.Args {
+			g2 := g.clone()
+			delete(g2.Co, term)
+			g2 = g2.addScaled(ff.T.Affine(a), co)
+			if ff.proveSplit(fs, b, g2, depth-1) {
+				okAny = true
+			} else {
+				okAll = false
+			}
+		}
+		if (co > 0 && okAll) || (co < 0 && okAny) {
+			return true
+		}
+	}
+	// case split on a merge phi occurring in the goal: prove the goal for every
+	// incoming edge with the edge's value substituted and the edge's facts added.
+	for term, co := range g.Co {
+		ph := ff.phiByTerm(term)
+		if ph == nil || b == nil || !ff.Dominates(ph.Block(), b) {
+			continue
+		}
+		loop := false
+		for i := range ph.Edges {
+			if ff.Dominates(ph.Block(), ph.Block().Preds[i]) {
+				loop = true
+			}
+		}
+		if loop {
+			continue
+		}
+		all := true
+		n := 0
+		for i, e := range ph.Edges {
+			pred := ph.Block().Preds[i]
+			if !ff.Reachable(pred) {
+				continue
+			}
+			n++
+			g2 := g.clone()
+			delete(g2.Co, term)
+			g2 = g2.addScaled(ff.T.Affine(e), co)
+			fs2 := append(append(FactSet{}, fs...), ff.EdgeFacts(pred, ph.Block())...)
+			if !ff.proveSplit(fs2, b, g2, depth-1) {
+				all = false
+				break
+			}
+		}
+		if all && n > 0 {
+			return true
+		}
+	}
+	return false
+}
+
+func (ff *FuncFacts) builtinByTerm(term string) *ssa.Call {
+	var out *ssa.Call
+	Instrs(ff.Fn, func(in ssa.Instruction) {
+		if c, ok := in.(*ssa.Call); ok && out == nil {
+			if _, isB := c.Call.Value.(*ssa.Builtin); isB && ff.T.Of(c) == term {
+				out = c
+			}
+		}
+	})
+	return out
+}
+
+func (ff *FuncFacts) phiByTerm(term string) *ssa.Phi {
+	if len(term) < 5 || term[:4] != "phi@" {
+		return nil
+	}
+	for _, b := range ff.Fn.Blocks {
+		for _, in := range b.Instrs {
+			ph, ok := in.(*ssa.Phi)
+			if !ok {
+				break
+			}
+			if ff.T.Of(ph) == term {
+				return ph
+			}
+		}
+	}
+	return nil
 }
 
 // usubIneqs: every unsigned subtraction X-Y executed in a block that strictly
@@ -96,8 +204,7 @@ func (ff *FuncFacts) usubIneqs(b *ssa.BasicBlock) []*Affine {
 func (ff *FuncFacts) ProveGEFacts(fs FactSet, x, y *Affine, k int64) bool {
 	g := x.Sub(y)
 	g.C -= k
-	known := append(ff.T.ineqs(fs), ff.PhiIneqs()...)
-	return proveGE0(g, known, 4)
+	return ff.proveCore(fs, nil, g)
 }
 
 // Const builds a constant affine form.
@@ -189,6 +296,9 @@ func DischargeArith(ff *FuncFacts, nonZero func(term string) (bool, string)) []A
 		case "slice":
 			sl := s.Instr.(*ssa.Slice)
 			ln := t.LenOf(sl.X)
+			if arr, ok := deref(sl.X.Type()).Underlying().(*types.Array); ok {
+				ln = Const(arr.Len())
+			}
 			okAll := true
 			lo, hi := Const(0), ln
 			if sl.Low != nil {
